@@ -2,10 +2,6 @@
 
 package serf
 
-import (
-	"net"
-)
-
 // C10: restart from a snapshot restores the rejoin set and clocks exactly.
 //
 // History induction: replay is a left fold over the file's lines and compaction
@@ -16,67 +12,11 @@ import (
 // and restart with the REAL NewSnapshotter/replay: the restored rejoin set and
 // clocks must equal the in-memory ones.
 
-const vfSnapPath = "/snap/local.snapshot"
-
-var vfAddrs = [2]net.IP{{10, 0, 0, 1}, {10, 0, 0, 2}}
-
-// vfSnapOpen opens a snapshotter through the real constructor.
-func vfSnapOpen(minCompact int, rejoin bool, clock *LamportClock) *Snapshotter {
-	_, snap, err := NewSnapshotter(vfSnapPath, minCompact, rejoin, nil, clock, nil, make(chan struct{}))
-	vfAssert("C10.open.ok", err == nil && snap != nil)
-	return snap
-}
-
-// vfSnapArbitrary: a snapshotter whose memory holds an arbitrary state (0..2 alive
-// nodes with symbolic 1-byte names, symbolic clocks) and whose file is what the
-// real compaction writes for that state.
-func vfSnapArbitrary(clock *LamportClock, rejoin bool) *Snapshotter {
-	s := vfSnapOpen(vfInt("minCompact"), rejoin, clock)
-	for i := 0; i < 2; i++ {
-		if vfBool("alive") {
-			name := string(vfFixedBytes("name", 1))
-			s.aliveNodes[name] = (&net.TCPAddr{IP: vfAddrs[i], Port: 7946}).String()
-		}
-	}
-	s.lastClock = LamportTime(vfU64("lastClock"))
-	s.lastEventClock = LamportTime(vfU64("lastEventClock"))
-	s.lastQueryClock = LamportTime(vfU64("lastQueryClock"))
-	vfAssert("C10.canonical.compact.ok", s.compact() == nil)
-	return s
-}
-
-func vfSameNodes(got []*PreviousNode, want map[string]string) bool {
-	ok := len(got) == len(want)
-	for _, n := range got {
-		a, has := want[n.Name]
-		ok = vfAnd(ok, has)
-		if has {
-			ok = vfAnd(ok, a == n.Addr)
-		}
-	}
-	return ok
-}
-
-// vfSnapRestartMatches restarts from the file and compares with memory.
-func vfSnapRestartMatches(s *Snapshotter, pfx string) {
-	mem := map[string]string{}
-	for k, v := range s.aliveNodes {
-		mem[k] = v
-	}
-	lc, le, lq := s.lastClock, s.lastEventClock, s.lastQueryClock
-	var c2 LamportClock
-	r := vfSnapOpen(1<<30, false, &c2)
-	vfReach(pfx + ".restarted")
-	vfAssert(pfx+".nodes", vfSameNodes(r.AliveNodes(), mem))
-	vfAssert(pfx+".clock", r.LastClock() == lc)
-	vfAssert(pfx+".event.clock", r.LastEventClock() == le)
-	vfAssert(pfx+".query.clock", r.LastQueryClock() == lq)
-}
-
 // VfC10_Step: one recording step from an arbitrary compacted state, then restart.
 //
 //vf:override os.OpenFile = github.com/hashicorp/serf/serf.vfOpenFile
 //vf:override os.Stat = github.com/hashicorp/serf/serf.vfStat
+//vf:override os.IsNotExist = github.com/hashicorp/serf/serf.vfIsNotExist
 //vf:override os.Remove = github.com/hashicorp/serf/serf.vfRemove
 //vf:override os.Rename = github.com/hashicorp/serf/serf.vfRename
 //vf:override (*os.File).Write = github.com/hashicorp/serf/serf.vfFileWrite
